@@ -92,6 +92,10 @@ def run_impl(spec, budget=20000):
             t.log.clear()
             h.dispatch(ev(name))
             out.append(observe(t, h))
+        if spec.get("restart") is not None:        # the same chart object started again
+            t.log.clear()
+            h.start_at(t.S[spec["restart"]])
+            out.append(observe(t, h))
     except BudgetExceeded as e:
         out.append({"exception": "BudgetExceeded", "log": list(t.log[:40])})
     except Exception as e:  # noqa
@@ -107,6 +111,11 @@ def run_ref(spec):
         offers, alog, c, kind = refmodel.step(parent, init, react, c, name)
         out.append({"log": offers + alog, "state": c, "state_name": NAMES[c],
                     "temp_is_state": True, "ignored": kind == "ignored"})
+        last_ignored = kind == "ignored"
+    if spec.get("restart") is not None:
+        log, c = refmodel.start_at(parent, init, spec["restart"])
+        out.append({"log": log, "state": c, "state_name": NAMES[c], "temp_is_state": True,
+                    "ignored": out[-1]["ignored"]})       # start_at does not touch the flag of the last event
     return out
 
 
